@@ -1,8 +1,120 @@
+/-
+C17 — `ociref` reference parsing/printing round trips.
+Only property statements live here; every proof assembles lemmas from
+`OciModel/RefLemmas.lean`.
+-/
 import OciModel.Ref
+import OciModel.RefLemmas
 namespace OciModel.Props.C17
 open OciModel.Ref
 
+/-! ### Concrete witnesses used by the satisfiability `example`s -/
+
+/-- `foo.com:5000` -/
+def exHost : Bytes := [102, 111, 111, 46, 99, 111, 109, 58, 53, 48, 48, 48]
+/-- `a/b-c` -/
+def exRepo : Bytes := [97, 47, 98, 45, 99]
+/-- `v1.0` -/
+def exTag : Bytes := [118, 49, 46, 48]
+/-- `sha256:` followed by 64 times `a` -/
+def exDigest : Bytes := sha256 ++ cColon :: List.replicate 64 97
+def exRef : Reference := ⟨exHost, exRepo, exTag, exDigest⟩
+/-- `foo.com/bar` -/
+def exAmbiguous : Bytes := [102, 111, 111, 46, 99, 111, 109, 47, 98, 97, 114]
+
+/-! ### T5: the recognisers are total; their values on the empty string -/
+
 /-- The empty string is not a tag (the predicate is defined on it). -/
 theorem isTag_nil : isTag [] = false := rfl
+
+example : isTag [] = false := by decide
+example : isDigest [] = false := by decide
+example : isRepo [] = false := by decide
+example : isHost [] = false := by decide
+example : parseRelative [] = none := by decide
+example : parse [] = none := by decide
+
+/-! ### T1: whatever parses prints back to the input -/
+
+theorem parse_print (s : Bytes) (r : Reference) (h : parseRelative s = some r) :
+    print r = s :=
+  (matchRef_some (parseRelative_some h).1).2.2
+
+/-- The hypothesis of `parse_print` is satisfiable by a reference with every part present. -/
+example : parseRelative (print exRef) = some exRef := by decide
+example : exRef.host ≠ [] ∧ exRef.tag ≠ [] ∧ exRef.digest ≠ [] := by decide
+
+/-! ### T2: every part of a parsed reference is valid -/
+
+theorem parse_parts_valid (s : Bytes) (r : Reference) (h : parseRelative s = some r) :
+    (r.host = [] ∨ isHost r.host = true) ∧ isRepo r.repo = true ∧ r.repo.length ≤ 255 ∧
+      (r.tag = [] ∨ isTag r.tag = true) ∧ (r.digest = [] ∨ isDigest r.digest = true) :=
+  have hp := parseRelative_some h
+  have hm := matchRef_some hp.1
+  ⟨hm.1, hm.2.1, hp.2.2.2, hp.2.2.1, hp.2.1⟩
+
+theorem isTag_length (t : Bytes) : isTag t = true → t.length ≤ 128 ∧ t ≠ [] :=
+  OciModel.Ref.isTag_length t
+
+example : isTag exTag = true := by decide
+
+/-! ### T3: `parse` is `parseRelative` plus a mandatory host -/
+
+theorem parse_host_nonempty (s : Bytes) (r : Reference) (h : parse s = some r) :
+    r.host ≠ [] ∧ parseRelative s = some r :=
+  parse_some h
+
+example : parse (print exRef) = some exRef := by decide
+/-- Without a host `parse` fails although `parseRelative` succeeds. -/
+example : parse exRepo = none ∧ parseRelative exRepo = some ⟨[], exRepo, [], []⟩ := by decide
+
+/-! ### T4: printing valid parts and parsing gives the parts back -/
+
+theorem print_parse (h p t d : Bytes) (hh : isHost h = true) (hp : isRepo p = true)
+    (hl : p.length ≤ 255) (ht : t = [] ∨ isTag t = true) (hd : d = [] ∨ isDigest d = true) :
+    parse (print ⟨h, p, t, d⟩) = some ⟨h, p, t, d⟩ :=
+  print_parse_aux h p t d hh hp hl ht hd
+
+/-- The hypotheses of `print_parse` are jointly satisfiable with all four parts non-empty. -/
+example : isHost exHost = true ∧ isRepo exRepo = true ∧ exRepo.length ≤ 255 ∧
+    isTag exTag = true ∧ isDigest exDigest = true := by decide
+
+/-- Alphabet facts behind `print_parse`: the separators cannot occur inside the parts. -/
+theorem host_no_slash (h : Bytes) (hh : isHost h = true) : cSlash ∉ h :=
+  fun hm => isHost_no_slash hh _ hm rfl
+
+theorem repo_no_colon_at (p : Bytes) (hp : isRepo p = true) : cColon ∉ p ∧ cAt ∉ p :=
+  ⟨fun hm => (isRepo_noColAt hp _ hm).1 rfl, fun hm => (isRepo_noColAt hp _ hm).2 rfl⟩
+
+theorem tag_no_at (t : Bytes) (ht : isTag t = true) : cAt ∉ t :=
+  fun hm => isTag_no_at ht _ hm rfl
+
+theorem digest_nonempty_no_newline (d : Bytes) (hd : isDigest d = true) : d ≠ [] ∧ cNL ∉ d :=
+  ⟨isDigest_ne_nil hd, fun hm => isDigest_no_nl hd _ hm rfl⟩
+
+/-- The host-less round trip `parseRelative (print ⟨[], p, t, d⟩) = some ⟨[], p, t, d⟩` is
+FALSE for valid parts: the first path component of a valid repository can itself be a valid
+host, and the greedy optional host group of `referencePat` then captures it.  `foo.com/bar`
+is a valid repository, but it parses as host `foo.com`, repository `bar`. -/
+theorem nohost_roundtrip_counterexample :
+    isRepo exAmbiguous = true ∧ exAmbiguous.length ≤ 255 ∧
+    print ⟨[], exAmbiguous, [], []⟩ = exAmbiguous ∧
+    parseRelative (print ⟨[], exAmbiguous, [], []⟩) =
+      some ⟨[102, 111, 111, 46, 99, 111, 109], [98, 97, 114], [], []⟩ ∧
+    parseRelative (print ⟨[], exAmbiguous, [], []⟩) ≠ some ⟨[], exAmbiguous, [], []⟩ := by
+  decide
+
+/-- The host-less round trip does hold under the extra condition that rules the
+counterexample out: the first `/`-delimited segment of the repository is not a valid host. -/
+theorem print_parseRelative_nohost_of_first_not_host (p t d : Bytes) (hp : isRepo p = true)
+    (hl : p.length ≤ 255) (ht : t = [] ∨ isTag t = true) (hd : d = [] ∨ isDigest d = true)
+    (hno : isHost (p.takeWhile (· != cSlash)) = false) :
+    parseRelative (print ⟨[], p, t, d⟩) = some ⟨[], p, t, d⟩ :=
+  print_parseRelative_nohost_aux p t d hp hl ht hd hno
+
+/-- The extra condition is satisfiable (`a/b-c`: first segment `a` is not a host). -/
+example : isRepo exRepo = true ∧ isHost (exRepo.takeWhile (· != cSlash)) = false ∧
+    parseRelative (print ⟨[], exRepo, exTag, exDigest⟩) = some ⟨[], exRepo, exTag, exDigest⟩ := by
+  decide
 
 end OciModel.Props.C17
